@@ -150,6 +150,14 @@ C18_Step(S, T, v, VLess(_, _), how) ==
         w \in {w \in DOMAIN S.veh \ {v} : StillWaiting(S, T, w, s, p) /\ S.veh[w].enq = e /\ VLess(w, v)}}
 
 
+\* "in order of arrival in the queue": the time a waiting vehicle is ranked by IS the time it joined this queue - stamped
+\* with the clock when it joins (also when it comes from another station's queue), never changed while it waits
+C18_Join(S, T, v) ==
+  IF v \notin DOMAIN S.veh \/ v \notin DOMAIN T.veh \/ T.veh[v].act # "ChargeQueueing" THEN {}
+  ELSE IF S.veh[v].act = "ChargeQueueing" /\ S.veh[v].tgt = T.veh[v].tgt /\ S.veh[v].plug = T.veh[v].plug
+       THEN (IF T.veh[v].enq # S.veh[v].enq THEN {V("C18", "arrival_time", "changed_while_waiting", v)} ELSE {})
+       ELSE (IF T.veh[v].enq # S.now THEN {V("C18", "arrival_time", "not_the_time_of_joining", v)} ELSE {})
+
 \* ... and over a whole time step, however many actions it took (an instruction that takes the vehicle out of the queue, an
 \* update that plugs it in): Q is the queue at the BEGINNING of the step (vehicle -> [s, p, enq]), T the state at its end.
 \* A vehicle that was waiting at the beginning and is charging on that plug at the end has not passed a vehicle that was
